@@ -81,6 +81,17 @@ def w_data(case):
     fig = cls()
     obs = case['observable']
     lab = '%s observable=%s' % (CLASSES[case['cls']], obs)
+    n0 = 0
+    if case.get('earlier_frame'):
+        # another frame (the same individuals' labels, other values and other dose
+        # rows) was added to the figure before
+        c0 = dict(case)
+        c0['rows'] = [[r[0], r[1], r[2], None if r[3] is None else r[3] + 10.0,
+                       None if r[4] is None else r[4] + 5.0, r[5]]
+                      for r in case['rows']]
+        df0, keys0 = make_frame(c0)
+        fig.add_data(df0, observable=obs, **keys0)
+        n0 = len(fig._fig.data)
     try:
         fig.add_data(df, observable=obs, **keys)
     except Exception as e:
@@ -117,7 +128,7 @@ def w_data(case):
             [r[4] for r in case['rows'] if r[0] == _id and r[4] is not None])
     got, got_dose = {}, {}
     pk = case['cls'] in ('PKTS', 'PKPP')
-    for tr in fig._fig.data:
+    for tr in fig._fig.data[n0:]:
         name = str(tr.name)
         if not name.startswith('ID: '):
             continue
@@ -371,6 +382,15 @@ def build(tier, seed):
         for order in (list(range(len(rows13))), list(range(len(rows13)))[::-1]):
             data.append({'cls': cls, 'rows': [rows13[i] for i in order],
                          'observable': 'A', 'custom_keys': False})
+    # a second frame added to a figure that already shows the same individuals
+    extra_hist = []
+    for c_ in data:
+        if c_.get('index', 'range') == 'range' and not c_.get('custom_keys') and \
+                len(c_['rows']) >= 4 and len(extra_hist) < 200:
+            c2 = dict(c_)
+            c2['earlier_frame'] = True
+            extra_hist.append(c2)
+    data += extra_hist[::2]
     # PD figures fed with a PKPD dataset: rows without an observable label (dose
     # rows, one individual has nothing else) are no measurements
     for cls in ('PDTS', 'PDPP'):
